@@ -14,3 +14,8 @@ def run(ctx):
     ctx.assumptions += ["T2 layer 2 for C04: the scenarios of C05 (Unlock / Renew / expiry / session end racing on one hold), judged by 'a lease that fired ends its hold' on the real observations"]
     if not ok and not ctx.violations:
         ctx.coq_broken_violation()
+
+
+def run(ctx, _inner=run):     # + T5-race (lib/racetie.py): data-race freedom, the assumption under every interleaving model; also re-runs its replay files
+    from lib import racetie
+    return racetie.stage(ctx, _inner, ["timermap", "server"])
